@@ -334,6 +334,16 @@ def rename_some(sc, names, seed):
     for n in list(sc.states):
         sc.depth_for(n), sc.ancestors_for(n), sc.descendants_for(n), sc.children_for(n), sc.parent_for(n)
     sc.leaf_for(sc.states), sc.events_for(), sc.validate()
+    # renamings that are refused (the name is taken) or void (same name) change nothing
+    from sismic.exceptions import StatechartError
+    if len(ids) >= 2:
+        for _ in range(2):
+            a, b = rng.sample(ids, 2)
+            try:
+                sc.rename_state(names[a], names[b])
+            except StatechartError:
+                pass
+        sc.rename_state(names[ids[-1]], names[ids[-1]])
     if rng.random() < 0.5:
         # shift: every state takes the former name of its predecessor (the first one gets a smaller name)
         first = '!' + names[ids[0]]
